@@ -135,4 +135,12 @@ CHECKS['C02'] = {
             'under a 40 s hang guard so the big-result deadlock is a visible outcome.',
     'note': '== on generated values (no NaN); main-script cases run a real script as a subprocess (a few per run).',
 }
+CHECKS['C04'] = {
+    'engine': 'OS', 'level': 'exploration', 'design_ref': 'DESIGN.md 3.5, 4 (C04)',
+    'technique': 'property-based testing over generated call histories (wait/terminate/is_alive/close x timeouts x force) on cooperative, exception-swallowing, sleeping, GIL-holding and SIGSTOPped children; time-bound + OS-liveness oracle',
+    'text': 'Real workers run one of seven behaviours; a generated history of up to four calls is applied and every call is judged: bounded duration '
+            '(3*timeouts + 10 s), True only if the worker and its child pid are gone, immediate True on dead / finished / not-run workers, forced terminate of '
+            'process/remote children always succeeds, False only while the child exists, and no signal to the caller.',
+    'note': 'This is the one property where wall-clock is the verdict; the bound only separates bounded from blocked. Thread kinds are limited to cooperative/swallowing targets with force=False.',
+}
 NOT_APPLICABLE = {}
